@@ -592,6 +592,35 @@ def _fd_low_rank_pack(eigvecs, deflated_eigs, inverted_eigs, new_const,
   return precond
 
 
+def _relocate_low_rank_metadata(packed, compression_rank, src_rows, dst_rows):
+  """Moves the slots the packed layout keeps at the end of the matrix.
+
+  _fd_low_rank_pack stores the sketch eigenvalues in the last `rank` rows of the
+  last column and the has_zeros flag in the last row of the second to last
+  column. When rows are zero-padded up to the largest statistic (or that
+  padding is cut off again) these slots have to move to the end of the matrix
+  of the new height, otherwise they are lost.
+
+  Args:
+    packed: packed low-rank preconditioner with at least max(src_rows,
+      dst_rows) rows.
+    compression_rank: rank of the packed representation.
+    src_rows: height for which the slots are currently laid out.
+    dst_rows: height for which they should be laid out.
+
+  Returns:
+    The packed preconditioner with eigenvalues and has_zeros relocated.
+  """
+  rank = abs(compression_rank)
+  eigvals = packed[src_rows - rank:src_rows, -1]
+  has_zeros = packed[src_rows - 1, -2]
+  packed = packed.at[src_rows - rank:src_rows, -1].set(0.0)
+  packed = packed.at[src_rows - 1, -2].set(0.0)
+  packed = packed.at[dst_rows - rank:dst_rows, -1].set(eigvals)
+  packed = packed.at[dst_rows - 1, -2].set(has_zeros)
+  return packed
+
+
 def power_iteration(
     matrix: jnp.ndarray,
     num_iters: int = 100,
@@ -1793,7 +1822,11 @@ def _convert_to_parameter_stats(
     new_statistics.append(statistics[i][:size, :size])
     pd = size
     pd = _precond_dim(compression_rank, size)
-    new_preconditioners.append(preconditioners[i][:size, :pd])
+    preconditioner = preconditioners[i]
+    if _should_compress(compression_rank, size) and preconditioner.shape[0] > size:
+      preconditioner = _relocate_low_rank_metadata(
+          preconditioner, compression_rank, preconditioner.shape[0], size)
+    new_preconditioners.append(preconditioner[:size, :pd])
   if not convert_statistics:
     new_statistics = None
   return ParameterStats(
@@ -2176,7 +2209,12 @@ def distributed_shampoo(
       pad_cols = [(0, pd - c)]
       padding = pad_rows + pad_cols
       preconditioner = maybe_reset_preconditioner(step, preconditioner)
-      return jnp.pad(preconditioner, padding)
+      padded = jnp.pad(preconditioner, padding)
+      if _should_compress(compression_rank, r) and r < max_size:
+        # Packed low-rank preconditioner: keep its trailing slots trailing.
+        padded = _relocate_low_rank_metadata(padded, compression_rank, r,
+                                             max_size)
+      return padded
 
     last_dims_padded = [_pad_preconditioner(p) for p in preconditioners]
     dt = preconditioners[0].dtype if preconditioners else jnp.float32
@@ -2981,6 +3019,11 @@ def distributed_shampoo(
     new_errors_flat = metrics_flat.inverse_pth_root_errors
     for p, shape, prev_p, error in zip(preconditioners_flat, original_shapes,
                                        prev_preconditioners, new_errors_flat):
+      if _should_compress(compression_rank, shape[0]) and p.shape[0] > shape[0]:
+        # Packed low-rank preconditioner: move its trailing slots (sketch
+        # eigenvalues, has_zeros) in front of the padding that is cut off.
+        p = _relocate_low_rank_metadata(p, compression_rank, p.shape[0],
+                                        shape[0])
       new_preconditioners_flat.append(
           _select_preconditioner(error, p[:shape[0], :shape[1]], prev_p))
 
